@@ -94,8 +94,101 @@ def augment(rng, spec, profile, force=None):
                 return_junction=ret, flow_junction=fl, p_flow_bar=p0 * rng.choice([1.0, 0.5]), mdot_flow_kg_per_s=0.2,
                 t_flow_k=t0, in_service=rng.random() < 0.9, index=_free_label(spec, "create_circ_pump_const_mass_flow", 3))])
         feats.append("circ")
+    # several pumps of DIFFERENT std types feeding leaf junctions, out-of-service ones possibly in front
+    if profile == "water" and ("pumps" in force or rng.random() < 0.3) and cand:
+        types = ["P1", "P2", "P3"]
+        rng.shuffle(types)
+        k = rng.randint(2, 3)
+        oos_first = rng.random() < 0.6
+        for q in range(k):
+            a = rng.choice(cand)
+            jn = _free_label(spec, "create_junction", 810000 + 10 * q)
+            spec["ops"].append(["create_junction", dict(pn_bar=p0, tfluid_k=t0, height_m=0., index=jn)])
+            ins = not (q == 0 and oos_first) and rng.random() < 0.9
+            spec["ops"].append(["create_pump", dict(from_junction=a, to_junction=jn, std_type=types[q], in_service=ins,
+                                                    index=_free_label(spec, "create_pump", rng.choice([0, 50, 100009]) + (k - q)))])
+            spec["ops"].append(["create_sink", dict(junction=jn, mdot_kg_per_s=rng.choice([0.5, 1.5, 3.0, 6.0]),
+                                                    index=_free_label(spec, "create_sink", 5100 + q))])
+        feats.append("pumps")
+    # stand-by pressure controllers: same branch and controlled junction as an existing one, other flags / set-point
+    pcs = [kw for fn, kw in spec["ops"] if fn == "create_pressure_control"]
+    if pcs and ("standby" in force or rng.random() < 0.6):
+        main = rng.choice(pcs)
+        sb = copy.deepcopy(main)
+        sb["index"] = _free_label(spec, "create_pressure_control", main["index"] + rng.choice([-1, 1, 7]))
+        sb["controlled_p_bar"] = main["controlled_p_bar"] * rng.choice([0.8, 0.9, 1.1])
+        sb["in_service"] = False
+        sb["control_active"] = rng.random() < 0.75
+        pos = next(i for i, (fn, kw) in enumerate(spec["ops"]) if fn == "create_pressure_control" and kw is main)
+        spec["ops"].insert(pos + (1 if rng.random() < 0.6 else 0), ["create_pressure_control", sb])
+        feats.append("standby_pc")
     spec["features"] = feats
+    return shadow(rng, spec)
+
+
+SHADOW = {   # table create function -> (set-point keys that get a different value in the shadow row)
+    "create_ext_grid": ["p_bar"], "create_flow_control": ["controlled_mdot_kg_per_s"], "create_compressor": ["pressure_ratio"],
+    "create_pump": ["std_type"], "create_sink": ["mdot_kg_per_s", "scaling"], "create_source": ["mdot_kg_per_s", "scaling"],
+    "create_mass_storage": ["mdot_kg_per_s"], "create_circ_pump_const_pressure": ["p_flow_bar", "plift_bar"],
+    "create_circ_pump_const_mass_flow": ["p_flow_bar", "mdot_flow_kg_per_s"], "create_heat_consumer": ["controlled_mdot_kg_per_s"],
+    "create_pipe_from_parameters": ["inner_diameter_mm"], "create_heat_exchanger": ["qext_w"],
+}
+
+
+def shadow(rng, spec):
+    """Out-of-service twins with different set-points, placed BEFORE the first row of their table or right after
+    their original (row order != label order): nothing of them may show in any result."""
+    spec = copy.deepcopy(spec)
+    n = 0
+    for fn, keys in SHADOW.items():
+        idxs = [i for i, (f, kw) in enumerate(spec["ops"]) if f == fn]
+        # an out-of-service circulation pump next to an in-service one makes pipeflow raise IndexError today
+        # (CirculationPump.create_pit_branch_entries: mask of the in-service rows applied to the pit of all rows;
+        # reported to the coordinator, outside C01 / C03) - generated rarely so that the other shadows stay effective
+        if not idxs or rng.random() < (0.9 if "circ_pump" in fn else 0.5):
+            continue
+        i = rng.choice(idxs)
+        tw = copy.deepcopy(spec["ops"][i][1])
+        tw["in_service"] = False
+        for k in keys:
+            if k not in tw or tw[k] is None:
+                continue
+            if k == "std_type":
+                tw[k] = rng.choice([t for t in ("P1", "P2", "P3") if t != tw[k]])
+            else:
+                tw[k] = tw[k] * rng.choice([0.5, 2.0, 3.0]) if tw[k] else 1.0
+        labels = [kw.get("index") for f, kw in spec["ops"] if f == fn and kw.get("index") is not None]
+        if labels:
+            lo = min(labels)
+            tw["index"] = lo - 1 if (lo > 0 and rng.random() < 0.5) else _free_label(spec, fn, max(labels) + 1)
+        refs = {tw.get(k) for k in ("junction", "from_junction", "to_junction", "return_junction", "flow_junction",
+                                    "controlled_junction")} - {None}
+        made = [q for q, (f, kw) in enumerate(spec["ops"]) if f == "create_junction" and kw.get("index") in refs]
+        first_ok = max([idxs[0]] + [q + 1 for q in made])
+        spec["ops"].insert(first_ok if (rng.random() < 0.6 and first_ok <= i) else i + 1, [fn, tw])
+        n += 1
+    if n:
+        spec["features"] = list(spec.get("features", [])) + ["shadow_rows"]
     return spec
+
+
+def mutate(rng, net):
+    """table edits a time series would make between two steps (kept small so that the net stays solvable)"""
+    for tbl in ("sink", "source", "mass_storage"):
+        if tbl in net and len(net[tbl]):
+            t = net[tbl]
+            t["mdot_kg_per_s"] = t["mdot_kg_per_s"].values * rng.choice([0.6, 0.8, 1.2])
+            if len(t) > 1 and rng.random() < 0.5:
+                i = rng.choice(list(t.index))
+                t.at[i, "in_service"] = not bool(t.at[i, "in_service"])
+            if rng.random() < 0.3:
+                t.at[rng.choice(list(t.index)), "scaling"] = rng.choice([0.5, 1.5])
+    if len(net.ext_grid):
+        net.ext_grid["p_bar"] = net.ext_grid["p_bar"].values * rng.choice([0.98, 1.01])
+    if "flow_control" in net and len(net.flow_control):
+        net.flow_control["controlled_mdot_kg_per_s"] = net.flow_control["controlled_mdot_kg_per_s"].values * 0.8
+    if "press_control" in net and len(net.press_control):
+        net.press_control["controlled_p_bar"] = net.press_control["controlled_p_bar"].values * 0.98
 
 
 def _main_component(spec):
@@ -126,7 +219,7 @@ def _main_component(spec):
 def gen_spec(rng, profiles=("water", "gas"), size=None, force=None):
     profile = rng.choice(list(profiles))
     if profile == "heat":
-        return gen.gen_net(rng, "heat", size=size), profile
+        return shadow(rng, gen.gen_net(rng, "heat", size=size)), profile
     spec = gen.gen_net(rng, profile, size=size)
     return augment(rng, spec, profile, force), profile
 
